@@ -162,6 +162,9 @@ def check_next_rtc(run, model, rule, E):
 
 
 def check_complete_circuit(run, model, rule):
+    """shape-independent: (1) every normal way out of complete_circuit lies on the "queue is empty" side of an emptiness test, with no step in between (the
+    observation is still current); (2) every cycle of its CFG passes through a step (next_rtc/dispatch): together, it returns only with the queue seen empty and
+    never spins without making progress"""
     hq = model.cls('HsmWithQueues')
     f = hq.methods.get('complete_circuit')
     if f is None:
@@ -169,31 +172,40 @@ def check_complete_circuit(run, model, rule):
     g = cfg_of(f)
     run.touch(f, g)
     q = f.params[0] + '.queue'
-    heads = [h for h in g.loop_heads() if h.kind == 'test']
-    if not heads:
-        raise AnalysisError('complete_circuit: no while loop found')
-    drained = False
+    tests = []
+    for t in g.nodes:
+        if t.kind == 'test':
+            rec, pol = is_nonempty_test(t.ast, q)
+            if rec:
+                tests.append((t, 'false' if pol else 'true'))       # the label of the edge taken when the queue is empty
+    steps = [n for n in g.nodes if n.kind not in ('entry', 'exit', 'xexit', 'def') and
+             any(isinstance(c.func, ast.Attribute) and c.func.attr in ('next_rtc', 'dispatch') and dotted(c.func.value) == f.params[0] for c in n.calls())]
+    run.floor('complete_circuit: emptiness tests of the pending queue', len(tests), 1)
+    run.floor('complete_circuit: step calls', len(steps), 1)
+    outs = [(p_, lab) for p_, lab in g.pred[g.exit] if lab not in ('raise', 'exc')]
+    for p_, lab in outs:
+        ok = False
+        for t, empty_lab in tests:
+            after = [m for m, l in g.succ[t] if l == empty_lab]
+            if not after:
+                continue
+            if p_ is t and lab == empty_lab:
+                ok = True
+            elif guarded_by_edge(g, p_, t, empty_lab) and not any(s_ is p_ or (g.exists_path(after[0], s_, avoiding=[t]) and g.exists_path(s_, p_, avoiding=[t])) for s_ in steps):
+                ok = True
+        run.inst(rule, f, 'way out `%s` is taken only with the queue seen empty' % p_.text()[:60], ok,
+                 '' if ok else ('complete_circuit can return through `%s` without the queue having just been seen empty: events stay pending although the caller was told the '
+                                'circuit is complete' % p_.text()[:80]), node=p_.ast if hasattr(p_.ast, 'lineno') else None, obligation=True)
+    run.floor('complete_circuit: ways out', len(outs), 1)
+    heads = list(g.loop_heads())
     for h in heads:
-        rec, pol = is_nonempty_test(h.ast, q)
-        ok = rec and pol
-        run.inst(rule, f, 'loop `while %s` runs while the queue is non-empty' % norm(h.ast), ok,
-                 '' if ok else 'the loop guard %s is not "the queue is non-empty": complete_circuit can return with events pending' % norm(h.ast), node=h.ast, obligation=True)
         body = g.loop_body(h)
-        steps = [n for n in body if n.kind not in ('entry', 'exit', 'xexit', 'def') and
-                 any(isinstance(c.func, ast.Attribute) and c.func.attr in ('next_rtc', 'dispatch') and dotted(c.func.value) == f.params[0] for c in n.calls())]
-        succ = [m for m, l in g.succ[h] if l == 'true']
-        cnt = g.count_on_paths(lambda n: 1 if n in steps else 0, start=succ[0], end=h) if succ else None
-        ok = cnt is not None and cnt[0] >= 1
-        run.inst(rule, f, 'every iteration of `while %s` takes a step' % norm(h.ast), ok,
-                 '' if ok else 'an iteration of the loop may take no step (steps per iteration %s): livelock' % (cnt,), node=h.ast, obligation=True)
-        esc = [n for n in g.nodes if n.kind == 'stmt' and isinstance(n.ast, (ast.Return, ast.Break)) and any(x is n.ast for x in ast.walk(h.stmt))]
-        run.inst(rule, f, '`while %s` is left only through its guard' % norm(h.ast), not esc, 'the loop can be left while the queue is non-empty', node=h.ast, obligation=True)
-    # every normal path to the exit passes the false edge of a non-empty guard (the queue was seen empty last)
-    def not_via_guard(a, b, lab):
-        return not (a in heads and lab == 'false')
-    leak = g.exit in g.reachable(g.entry, edge_ok=not_via_guard)
-    run.inst(rule, f, 'complete_circuit returns only after seeing the queue empty', not leak,
-             '' if not leak else 'a path of complete_circuit returns without the non-empty guard having failed', obligation=True)
+        succ_in = [m for m, l in g.succ[h] if m in body or m is h]
+        spin = any(m is h or g.exists_path(m, h, avoiding=steps) for m in succ_in if m not in steps)
+        run.inst(rule, f, 'every iteration of the loop at `%s` takes a step' % norm(h.ast)[:50], not spin,
+                 '' if not spin else 'an iteration of the loop may take no step: with an event pending complete_circuit spins for ever (livelock)', node=h.ast if hasattr(h.ast, 'lineno') else None,
+                 obligation=True)
+    run.floor('complete_circuit: loops', len(heads), 1)
 
 
 def check_dispatch_sites(run, model, rule, E):
